@@ -60,7 +60,7 @@ Proof.
   destruct (shut (w_mod w m)) as [r|] eqn:Es; cbn [fst].
   - assert (Hb : nwf (nw_bump now (nw (w_mod w m))) <= nwf (nw (w_mod w m)))
       by (destruct (nw (w_mod w m)) as [u|]; cbn [nw_bump nwf]; [destruct (u <=? now); cbn [nwf]|]; lia).
-    destruct r as [t|]; unfold Pot.pm, Pot.part; cbn [w_mod w_buf w_fes set_fes set_fin set_mod set_buf]; rewrite N.eqb_refl;
+    destruct r as [t|]; unfold Pot.pm, Pot.part; rewrite ifse_mod, ifse_buf, ifse_fes; cbn [w_mod w_buf w_fes set_fes set_fin set_mod set_buf]; rewrite N.eqb_refl;
       cbn [bud ready timers nw shut rdw tmw stale shw Pot.wl]; rewrite ?wsum_add, wsum_flush, Es; cbn [shw wt]; lia.
   - unfold Pot.pm. cbn [w_mod w_buf w_fes set_buf set_fes Pot.wl]. rewrite wsum_flush. lia.
 Qed.
